@@ -56,3 +56,34 @@ pub fn pick<T: Clone>(table: &[T], sel: u16) -> T {
     let i = (sel as usize * table.len()) >> 16;
     table[i.min(table.len() - 1)].clone()
 }
+
+/// Run a fresh real decoder over the bytes
+pub fn real_decode(bytes: &[u8]) -> Result<Vec<(usize, Key)>, String> {
+    let mut g = embedded_cli::__verif::InputGenerator::new();
+    let mut got = Vec::new();
+    for (i, &b) in bytes.iter().enumerate() {
+        if let Some(inp) = g.accept(b) {
+            got.push((i, key_of(&inp).map_err(|e| format!("at byte {}: {}", i, e))?));
+        }
+    }
+    Ok(got)
+}
+
+/// Tokenise a line with the real tokenizer (on a private copy).
+/// Returns the tokens as raw bytes, and `is_empty()`.
+pub fn real_tokens(line: &str) -> (Vec<Vec<u8>>, bool) {
+    let mut buf = line.as_bytes().to_vec();
+    let s = core::str::from_utf8_mut(&mut buf).expect("caller passes a str");
+    let t = embedded_cli::__verif::Tokens::new(s);
+    let empty = t.is_empty();
+    let mut it = t.iter();
+    let mut out = Vec::new();
+    for tok in &mut it {
+        out.push(tok.as_bytes().to_vec());
+    }
+    (out, empty)
+}
+
+pub fn lossy_list(v: &[Vec<u8>]) -> Vec<String> {
+    v.iter().map(|b| String::from_utf8_lossy(b).to_string()).collect()
+}
